@@ -198,7 +198,10 @@ def check_raw_copies(prop: str, res: Result, repo: Repo, want=("method", "append
         branch = [n for n in ast.walk(ap.node) if isinstance(n, ast.If) and "DEFAULT_CANDLES" in ast.unparse(n.test)]
         ok = False
         if len(ext) == 2 and len(branch) == 1:
-            default_first = "==" in ast.unparse(branch[0].test)
+            from .structure import canon_cond
+
+            tst, flipped = canon_cond(branch[0].test)
+            default_first = (isinstance(tst, ast.Compare) and isinstance(tst.ops[0], ast.Eq)) != flipped
             d_arm, o_arm = (branch[0].body, branch[0].orelse) if default_first else (branch[0].orelse, branch[0].body)
             o_calls = [c for st in o_arm for c in calls_in(st) if call_target(c) == "self.candles.extend"]
             d_calls = [c for st in d_arm for c in calls_in(st) if call_target(c) == "self.candles.extend"]
